@@ -39,6 +39,8 @@ type groupReg struct {
 	ends           []uint64
 	trigCalls      []uint64
 	selfTrig       int // the function calls its own trigger function this many times
+	nestDo         bool // the function registers another one (g.Do) from inside its first run
+	nested         bool // registered from inside a run
 	lastStartByTimer bool
 }
 
@@ -78,6 +80,7 @@ func groupWorld(r *R) {
 			rg.delay = time.Duration(r.Choose(12, "reg-delay")) * 23 * time.Millisecond
 		}
 		rg.spin = r.Choose(6, "reg-spin")
+		rg.nestDo = r.Choose(5, "nested-do") == 4
 		if (rg.kind == 2 || rg.kind == 3) && r.Choose(3, "self-trigger") == 2 {
 			rg.selfTrig = 1
 		}
@@ -95,7 +98,8 @@ func groupWorld(r *R) {
 	// (settled runs judge triggers once no more trigger calls are made: a function only triggers
 	// itself while the triggerers are still at work)
 	triggerersActive := func() bool { return false }
-	mkF := func(rg *groupReg) func(ctx context.Context) {
+	var mkF func(rg *groupReg) func(ctx context.Context)
+	mkF = func(rg *groupReg) func(ctx context.Context) {
 		return func(ctx context.Context) {
 			s := sim.Seq()
 			rg.starts = append(rg.starts, s)
@@ -123,6 +127,19 @@ func groupWorld(r *R) {
 				}
 			} else {
 				sim.Yield("f-run")
+			}
+			if rg.nestDo && !rg.nested && (!settled || triggerersActive()) {
+				// the function registers another function with the same group from inside its run
+				rg.nestDo = false
+				r.Probe("do-from-inside-a-run")
+				child := &groupReg{id: 100 + rg.id, kind: 0, nested: true, respect: true, runTime: []time.Duration{0, 5 * time.Millisecond, 30 * time.Millisecond}[r.Choose(3, "nested-runtime")]}
+				regs = append(regs, child)
+				child.regInv = sim.Seq()
+				child.regAt = int64(sim.Now())
+				r.Logf("f%d registers nested f%d #%d", rg.id, child.id, child.regInv)
+				g.Do(mkF(child))
+				child.regRet = sim.Seq()
+				child.registered = true
 			}
 			if rg.selfTrig > 0 && rg.trigger != nil && (!settled || triggerersActive()) {
 				// the function asks for another run of itself (once)
